@@ -232,7 +232,7 @@ func checkC17(p *Prog, r *Report) {
 					rGuard.Unproven(fnName(fd)+":per-file-ops", posOf(dotIf), "only %d per-file operations recognised", nops)
 				}
 				/* The dot edge continues the loop. */
-				if nil != (reachQ{From: Loc{dotIf.Block().Succs[1-notDot], -1}, Block: func(i ssa.Instruction) bool { return i.Block() == elem.Block() }, Target: isReturn}).run() {
+				if nil != (reachQ{From: edgeLoc(dotIf.Block(), 1-notDot), Block: func(i ssa.Instruction) bool { return i.Block() == elem.Block() }, Target: isReturn}).run() {
 					/* Reaching a return without re-entering the loop body is
 					only fine through the loop's normal end. */
 				}
@@ -411,7 +411,7 @@ func checkC17(p *Prog, r *Report) {
 				return
 			}
 			/* Returns reachable from the no-converter edge. */
-			if nil == (reachQ{From: Loc{isNo.Block().Succs[k], -1}, Target: func(j ssa.Instruction) bool { return j == ssa.Instruction(ret) }}).run() {
+			if nil == (reachQ{From: edgeLoc(isNo.Block(), k), Target: func(j ssa.Instruction) bool { return j == ssa.Instruction(ret) }}).run() {
 				return
 			}
 			n++
@@ -558,7 +558,7 @@ func checkFirstMatch(p *Prog, ru *Rule, fr *ssa.Function) {
 	}
 	for _, bt := range boolTestsOf(fr, okV) {
 		ifi := bt.If
-		if nil != (reachQ{From: Loc{ifi.Block().Succs[bt.TrueSucc], -1}, Target: func(i ssa.Instruction) bool { return i == ssa.Instruction(match) }}).run() {
+		if nil != (reachQ{From: edgeLoc(ifi.Block(), bt.TrueSucc), Target: func(i ssa.Instruction) bool { return i == ssa.Instruction(match) }}).run() {
 			ru.Bad(c+":first-match-wins", posOf(ifi), "after a pattern matched the loop goes on matching: a later pattern overrides the first one")
 		} else {
 			ru.OK(c+":first-match-wins", posOf(ifi), "the loop is left on the first match")
